@@ -1,6 +1,7 @@
 #![allow(dead_code)]
 mod util;
 mod c15;
+mod c19;
 use util::*;
 
 fn main() {
@@ -40,6 +41,8 @@ fn main() {
             let mut ctx = Ctx::new(&out, seed, tier);
             match prop {
                 "C15" => c15::corr(&mut ctx),
+                "C19" => c19::corr(&mut ctx),
+                "C19sweep" => c19::sweep(&mut ctx),
                 _ => {
                     eprintln!("unknown property {}", prop);
                     std::process::exit(2);
